@@ -69,7 +69,7 @@ func verifOp20(f *verifMgr, op int, chids [2]datatransfer.ChannelID, label strin
 		req := verifScalarRequest(label + ".req")
 		zz.Assume(req.MessageType == uint64(types.NewMessage))
 		req.VoucherTypeIdentifier = "vt2"
-		req.TransferId = 77
+		zz.SetInt(&req.TransferId, 77)
 		base := zz.CidFromAtom("b3")
 		req.BaseCidPtr = &base
 		req.SelectorPtr = zz.Node(label + ".rsel")
